@@ -399,13 +399,13 @@ def check_transpose(case):
 
 
 core.register("C07", [
-    Facet("snaky", snaky_cases, check_snaky, n_quick=1600, shards_quick=8,
+    Facet("snaky", snaky_cases, check_snaky, n_quick=3200, shards_quick=8,
           rule=RULE),
-    Facet("free", free_cases, check_free, n_quick=800, shards_quick=4,
+    Facet("free", free_cases, check_free, n_quick=1600, shards_quick=4,
           rule="free rigid generator with caps and cups anywhere (mostly no "
           "removable snake; disconnected results allowed to raise "
           "NotImplementedError)"),
-    Facet("constructions", transpose_cases, check_transpose, n_quick=800,
+    Facet("constructions", transpose_cases, check_transpose, n_quick=1600,
           shards_quick=4, rule="(double) transposes, caps >> cups of "
           "composite types and curry/uncurry of connected base diagrams"),
 ], rule=RULE, assumptions=[
